@@ -703,7 +703,9 @@ def _mutual_info_score(reference_indices, estimated_indices, contingency=None):
         contingency_nm * (log_contingency_nm - np.log(contingency_sum))
         + contingency_nm * log_outer
     )
-    return mi.sum()
+    # Mutual information is non-negative; rounding error can leave a tiny
+    # negative sum (e.g. when one labelling has a single cluster)
+    return np.clip(mi.sum(), 0.0, None)
 
 
 def _entropy(labels):
